@@ -173,9 +173,15 @@ Qed.
 (* ops that do not run the loop deliver nothing *)
 Definition is_run (o : op) : bool := match o with Run1 | RunAll => true | _ => false end.
 
+(* the three user-initiated volume ops share user_vol: blocked | not supported | announced *)
+Ltac uv tac :=
+  unfold user_vol;
+  match goal with |- context [blocked ?s] => destruct (blocked s) eqn:?B end; [tac|];
+  match goal with |- context [main_of (aregs ?c) None] => destruct (main_of (aregs c) None) eqn:?M end; tac.
+
 Lemma step_norun c s o : is_run o = false -> snd (fst (step c s o)) = [].
 Proof.
-  destruct o; simpl; try discriminate; intros _; try reflexivity.
+  destruct o; simpl; try discriminate; intros _; try reflexivity; try (uv reflexivity).
   - destruct (opt_eqb (prev s p) (Some s0)); reflexivity.
   - destruct (blocked s); reflexivity.
   - destruct (blocked s); [reflexivity|]. destruct (stop_all (sraise c) (regs c) (lis s)); reflexivity.
@@ -254,7 +260,8 @@ Proof.
       rewrite (step_norun c s (Rel l) eq_refl). simpl in IH |- *.
       destruct (release_data l s) as (D1 & _ & _ & _ & _ & _ & _ & D8). now rewrite D1, D8 in IH.
     + rewrite (step_norun c s (DispVol p v) eq_refl). simpl in IH |- *.
-      rewrite qplays_app in IH. simpl in IH. now rewrite app_nil_r in IH.
+      destruct (memb p (aregs c)); simpl in IH;
+        rewrite qplays_app in IH; simpl in IH; now rewrite app_nil_r in IH.
     + rewrite (step_norun c s (DispDev p v) eq_refl). simpl in IH |- *.
       rewrite qplays_app in IH. simpl in IH. now rewrite app_nil_r in IH.
     + rewrite (step_norun c s (DispFocus p v) eq_refl). simpl in IH |- *.
@@ -274,6 +281,15 @@ Proof.
       pose proof (plays_drain c (queue s) s0) as P.
       destruct (drain c s0 (queue s)) as [s' d]. simpl in *.
       rewrite F1, F7 in IH. simpl in IH. now apply subseq_app.
+    + rewrite (step_norun c s (SetVol v) eq_refl). simpl in IH |- *. unfold user_vol in IH |- *.
+      destruct (blocked s); [simpl in IH |- *; exact IH|]. destruct (main_of (aregs c) None); [|simpl in IH |- *; exact IH].
+      simpl in IH |- *. rewrite qplays_app in IH. simpl in IH. now rewrite app_nil_r in IH.
+    + rewrite (step_norun c s VolUp eq_refl). simpl in IH |- *. unfold user_vol in IH |- *.
+      destruct (blocked s); [simpl in IH |- *; exact IH|]. destruct (main_of (aregs c) None); [|simpl in IH |- *; exact IH].
+      simpl in IH |- *. rewrite qplays_app in IH. simpl in IH. now rewrite app_nil_r in IH.
+    + rewrite (step_norun c s VolDown eq_refl). simpl in IH |- *. unfold user_vol in IH |- *.
+      destruct (blocked s); [simpl in IH |- *; exact IH|]. destruct (main_of (aregs c) None); [|simpl in IH |- *; exact IH].
+      simpl in IH |- *. rewrite qplays_app in IH. simpl in IH. now rewrite app_nil_r in IH.
 Qed.
 
 (* ---- 2. only from the active protocol, only while forwarding --------------------------------- *)
@@ -432,12 +448,16 @@ Proof.
   - pose proof (takeover_data p l s []) as D. destruct (takeover s p l []) as [s' r]. simpl in *.
     destruct D as (_ & _ & D3 & D4 & _). split; assumption.
   - destruct (release_data l s) as (_ & _ & D3 & D4 & _). split; assumption.
+  - destruct (memb p (aregs c)); split; reflexivity.
   - destruct (opt_eqb (main_of (kregs c) (ktake s)) (Some p)); split; reflexivity.
   - destruct (queue s) as [|q tl]; simpl; [split; reflexivity|].
     pose proof (deliver_frame c (set_vals s (vol s) (dev s) (foc s) tl) q) as ((_ & _ & F3 & _ & _ & F6) & _).
     destruct (deliver c (set_vals s (vol s) (dev s) (foc s) tl) q) as [s' d]. simpl in *. split; assumption.
   - pose proof (drain_frame c (queue s) (set_vals s (vol s) (dev s) (foc s) [])) as ((_ & _ & F3 & _ & _ & F6) & _).
     destruct (drain c (set_vals s (vol s) (dev s) (foc s) []) (queue s)) as [s' d]. simpl in *. split; assumption.
+  - uv ltac:(split; reflexivity).
+  - uv ltac:(split; reflexivity).
+  - uv ltac:(split; reflexivity).
 Qed.
 
 Definition inv (s : st) : Prop := blocked s = true -> fwd s = false.
